@@ -126,6 +126,13 @@ def run(ctx):
     ok = len(rm) == 1 and len(uc) == 1 and guarded_any(ub, rm[0].bb, [r'\.packet_id is Some$']) and guarded_any(ub, uc[0].bb, [r'\.packet_id is Some$']) \
         and show(rm[0].cs.arg(1)).endswith('.packet_id@Some.0') and 'HashMap::get_mut(self.operations, id)' in show(uc[0].arg(0))
     ctx.ob(ok, 'unbind releases the operation\'s id from the map and clears it in the operation and packet', 'unbind', loc=ub.loc())
+    some_edges = prims.edge_nodes_matching(ub, [r'\.packet_id is Some$'])
+    okc = bool(some_edges) and bool(rm) and bool(uc)
+    for en in some_edges:
+        o1, _ = must_pass(ub, en, [uc[0].bb] if uc else [], after_start=False)
+        o2, _ = must_pass(ub, en, [rm[0].bb] if rm else [], after_start=False)
+        okc = okc and o1 and o2
+    ctx.ob(okc, 'whenever the operation has a packet id, unbind both releases the map entry and clears the id (no path skips either)', 'unbind-complete', loc=ub.loc())
     sess = ctx.fn('ProtocolState::apply_session_present_to_connection')
     callers = [(cv, bb) for cv, bb in F.callers().get(ub.key, [])]
     okc = False
